@@ -2,6 +2,7 @@
 from __future__ import annotations
 
 import atexit
+from collections import Counter
 import json
 import os
 import re
@@ -193,6 +194,7 @@ THRESHOLD_KEYS = (
     ("dry", "dry", "min_duplicate_lines"), ("dry", "dry", "min_occurrences"), ("dry", "dry", "min_duplicate_tokens"),
     ("magic-numbers", "magic-numbers", "max_small_integer"), ("stringly-typed", "stringly-typed", "min_occurrences"),
     ("pipeline", "collection-pipeline", "min_continues"),
+    ("dry", "dry", "python:\n    min_occurrences"), ("dry", "dry", "typescript:\n    min_occurrences"),      # language sub-sections
 )
 BAD_NUMBERS = ("0", "-1", "abc", "[1]", "{a: 1}")
 BAD_REGEX = "'*.tmp.py'"
@@ -365,6 +367,56 @@ def h_exit_codes(ctx):
                     out.count("own ") == k and "foreign" not in out, out=out[-300:])
 
 
+# ---------------------------------------------------------------- one project, three renderings, three processes
+_RP = {}
+
+
+def _render_project():
+    if _RP.get("pid") != os.getpid():
+        from vsym import triggers
+        d = tempfile.mkdtemp(prefix="c06rend-")
+        atexit.register(shutil.rmtree, d, True)
+        triggers.write_project(d)
+        # one variable compared with == to different literals in two files (messages that list the values)
+        (Path(d) / "src" / "routing.py").write_text("def route(state):\n    if state == \"loaded\":\n        return 1\n    if state == \"queued\":\n        return 2\n"
+                                                   "    if state == \"packed\":\n        return 3\n    return 0\n")
+        (Path(d) / "src" / "report.py").write_text("def report(state):\n    if state == \"transit\":\n        return 1\n    if state == \"customs\":\n        return 2\n"
+                                                  "    if state == \"packed\":\n        return 3\n    return 0\n")
+        _RP.update(pid=os.getpid(), d=Path(d))
+    return _RP["d"]
+
+
+def h_renderings_in_separate_processes(ctx):
+    """The command line renders one format per invocation: the three renderings of one project come from three
+    interpreter processes (each with its own string-hash seed) and must still describe the same violations."""
+    import subprocess
+    import sys
+    cmd = ctx.pick("command", tuple(c for c in catalogue.linter_commands() if c != "file-placement"))
+    d = _render_project()
+    outs = {}
+    for seed, fmt in ((11, "text"), (12, "json"), (13, "sarif")):
+        env = dict(os.environ, PYTHONPATH=os.environ.get("VERIF_REPO", "/repo"), PYTHONHASHSEED=str(seed))
+        p = subprocess.run([sys.executable, "-m", "src.cli_main", "--project-root", str(d), cmd, "--format", fmt, str(d / "src")],
+                           capture_output=True, text=True, env=env, timeout=300, cwd=str(d))
+        outs[fmt] = (p.returncode, p.stdout)
+    codes = {f: c for f, (c, _o) in outs.items()}
+    ctx.cover("ran")
+    ctx.require("same-exit-code-in-every-format", len(set(codes.values())) == 1 and codes["json"] in (0, 1), codes=codes)
+    if codes["json"] not in (0, 1) or len(set(codes.values())) != 1:
+        return
+    jdoc, sdoc = json.loads(outs["json"][1]), json.loads(outs["sarif"][1])
+    jv = Counter((v["rule_id"], v["file_path"], v["line"], v["column"], v["message"]) for v in jdoc["violations"])
+    sv = Counter((r["ruleId"], r["locations"][0]["physicalLocation"]["artifactLocation"]["uri"],
+                  r["locations"][0]["physicalLocation"]["region"]["startLine"],
+                  r["locations"][0]["physicalLocation"]["region"]["startColumn"] - 1, r["message"]["text"]) for r in sdoc["runs"][0]["results"])
+    ctx.cover("findings" if jv else "clean")
+    ctx.require("json-and-sarif-describe-the-same-violations", jv == sv, command=cmd,
+                only_json=[list(k)[:5] for k in list(jv - sv)[:2]], only_sarif=[list(k)[:5] for k in list(sv - jv)[:2]])
+    text = outs["text"][1]
+    missing = [m for (_r, _f, _l, _c, m) in jv if m.split("\n")[0] not in text]
+    ctx.require("text-shows-every-message-of-the-json-report", not missing, command=cmd, missing=missing[:2])
+
+
 ASSUMPTIONS = (
     "json.dumps inside src.core.cli_utils is replaced by a recorder (identity contract) while line/column are symbolic; "
     "witness replays use the real encoder",
@@ -400,6 +452,11 @@ def obligations(tier):
                   % (len(THRESHOLD_KEYS), ", ".join(BAD_NUMBERS), len(PLACEMENT_BODIES)),
            timeout=600, workers=14, must_cover=("exit2",),
            outside="structural type errors of whole sections (a section that is a scalar, `directories: 5`); unknown keys"),
+        Ob(name="K3-renderings-from-separate-processes", engine="pathex", harness=h_renderings_in_separate_processes,
+           functions=["src.cli_main (three real invocations per command, one per format)", "every rule's message builder", "format_violations / SarifFormatter"],
+           bounds="forked: every linter command on the whole trigger catalogue plus a scattered-comparison pair; text, JSON and SARIF produced by "
+                  "separate interpreter processes with string-hash seeds 11, 12, 13",
+           timeout=900, workers=12, must_cover=("ran", "findings")),
         Ob(name="K2-exit-codes-every-command", engine="pathex", harness=h_exit_codes,
            functions=["every click command under src.cli.linters (via src.cli_main.cli)", "_execute_*_lint",
                       "_run_*_lint filters", "run_linter_command", "handle_linting_error",
